@@ -586,18 +586,19 @@ func helpFlags(bin, sub string) map[string]bool {
 
 // selfProbe: does this build's own s_client complete a handshake with this build's s_server under these options?
 func selfProbe(bin string, srvArgs, cliArgs []string) bool {
-	srv, err := startServer(bin, srvArgs, 15*time.Second)
+	srv, err := startServer(bin, srvArgs, 60*time.Second)
 	if err != nil {
 		return false
 	}
 	defer srv.stop(0)
-	cli, err := spawn(bin, append([]string{"s_client", "-connect", "127.0.0.1:" + strconv.Itoa(srv.port)}, cliArgs...), 10*time.Second, true)
+	cli, err := spawn(bin, append([]string{"s_client", "-connect", "127.0.0.1:" + strconv.Itoa(srv.port)}, cliArgs...), 45*time.Second, true)
 	if err != nil {
 		return false
 	}
 	defer cli.stop(0)
-	// the server prints its connection summary only after a completed handshake
-	ok := srv.waitLine(func(l string) bool { return strings.HasPrefix(l, "CIPHER is ") && !strings.Contains(l, "(NONE)") }, 6*time.Second)
+	// the server prints (and flushes) its connection summary only after a completed handshake; a failed handshake ends
+	// the server (-naccept 1), so the long deadline is only ever used up on a machine that is too busy to answer
+	ok := srv.waitLine(func(l string) bool { return strings.HasPrefix(l, "CIPHER is ") && !strings.Contains(l, "(NONE)") }, 30*time.Second)
 	return ok
 }
 
@@ -672,8 +673,8 @@ func probeBuild(k int, bin string, d *diskPKI) (caps, error) {
 			defer wg.Done()
 			sem <- struct{}{}
 			defer func() { <-sem }()
-			// a probe that fails is repeated once: on a loaded machine a start-up can exceed its deadline
-			j.ok = selfProbe(bin, j.srv, j.cli) || selfProbe(bin, j.srv, j.cli)
+			// a probe that fails is repeated: on a loaded machine a start-up can exceed its deadline
+			j.ok = selfProbe(bin, j.srv, j.cli) || selfProbe(bin, j.srv, j.cli) || selfProbe(bin, j.srv, j.cli)
 		}(j)
 	}
 	wg.Wait()
